@@ -380,9 +380,9 @@ def run(ctx):
     # The (width, data width) plane is cut into independent TLC runs.  Bounds on the words since the last start:
     # at most maxwords words and maxbits bits.
     if th:
-        mc_jobs = [dict(widths="{1, 2}", dws="{1, 2, 3, 4}", workers=2, maxwords=6, maxbits=10)]
-        for w, d, k, mw, mbits in [(3, 1, 1, 6, 10), (3, 2, 2, 6, 10), (3, 3, 4, 6, 10), (3, 4, 1, 6, 10),
-                                   (4, 1, 2, 6, 8), (4, 2, 3, 3, 8), (4, 3, 1, 6, 8), (4, 4, 5, 6, 8)]:
+        mc_jobs = [dict(widths="{1, 2}", dws="{1, 2, 3, 4}", workers=2, maxwords=6, maxbits=8)]
+        for w, d, k, mw, mbits in [(3, 1, 1, 6, 10), (3, 2, 2, 6, 8), (3, 3, 4, 6, 10), (3, 4, 2, 6, 10),
+                                   (4, 1, 3, 6, 8), (4, 2, 3, 3, 8), (4, 3, 1, 6, 8), (4, 4, 6, 6, 8)]:
             mc_jobs.append(dict(widths="{%d}" % w, dws="{%d}" % d, workers=k, maxwords=mw, maxbits=mbits))
         gen_jobs = [dict(widths="{%d}" % w, dws="{%d}" % d, maxwords=6 if w <= 3 else 3, maxbits=9 if w <= 3 else 8,
                          workers=2 if w == 4 else 1) for w in (1, 2, 3, 4) for d in (1, 2, 3, 4)]
